@@ -2,6 +2,7 @@
    instantiated with the tables of Generated/C02Tables.v) on cases read from stdin.
    Input lines :  <id> <span> <items|-> <dense hex|-> <readable hex|-> <ref hex|->
                   op <id> <polish tree> <dense hex> <readable hex>          (operator trees)
+                  st <id> <0|1> <A hex> <B hex> <AB dense hex> <AB readable hex>   (statement boundaries)
    Output lines:  bad <id> <diag>     for every case where check_case is false;   done <count> *)
 open C02_model
 
@@ -89,6 +90,11 @@ let () =
          in
          incr count;
          if not (c02_check c) then Printf.printf "bad %s %s\n" id (string_of_bytes (c02_diag c))
+       | [ "st"; id; exprend; a; b; dense; readable ] ->
+         let c = { s_exprend = (exprend = "1"); s_a = bytes_of_hex a; s_b = bytes_of_hex b;
+                   s_dense = bytes_of_hex dense; s_readable = bytes_of_hex readable } in
+         incr count;
+         if not (scheck_case c) then Printf.printf "bad %s %s\n" id (string_of_bytes (sdiag_bytes c))
        | [ "op"; id; polish; dense; readable ] ->
          let c = { p_expr = parse_polish polish; p_dense = bytes_of_hex dense; p_readable = bytes_of_hex readable } in
          incr count;
